@@ -137,6 +137,7 @@ type Conn struct {
 	isClosed bool
 	peer     *Conn // other end of a Pipe: closing this end ends the peer's input
 	frozen   bool  // the peer has gone silent: reads only end by deadline or close
+	frozenW  bool  // ... and it has stopped reading: writes only end by deadline or close
 
 	// React, when set, is called synchronously with every chunk the library writes
 	// (after it was appended to Wire); the scripted peer parses it and calls Feed.
@@ -196,6 +197,15 @@ func (c *Conn) InputEmpty() bool { return c.in.empty() }
 func (c *Conn) Freeze() {
 	c.mu.Lock()
 	c.frozen = true
+	c.mu.Unlock()
+}
+
+// FreezeAll is Freeze plus a peer that has stopped reading: writes block as well, until the
+// write deadline expires or the connection is closed.
+func (c *Conn) FreezeAll() {
+	c.mu.Lock()
+	c.frozen = true
+	c.frozenW = true
 	c.mu.Unlock()
 }
 
@@ -278,6 +288,15 @@ func (c *Conn) Write(p []byte) (int, error) {
 	if c.Gate != nil {
 		c.Gate("conn.write")
 	}
+	for {
+		c.mu.Lock()
+		blocked := c.frozenW && !c.isClosed && !(!c.wdl.IsZero() && !time.Now().Before(c.wdl))
+		c.mu.Unlock()
+		if !blocked {
+			break
+		}
+		time.Sleep(time.Millisecond)
+	}
 	c.mu.Lock()
 	c.nWrite++
 	k := c.nWrite
@@ -286,6 +305,9 @@ func (c *Conn) Write(p []byte) (int, error) {
 		fail = true
 	}
 	expired := !c.wdl.IsZero() && !time.Now().Before(c.wdl)
+	if c.frozenW && !c.isClosed {
+		expired = true // a write to a peer that does not read never completes
+	}
 	closed := c.isClosed
 	if !fail && !expired && !closed {
 		c.Wire = append(c.Wire, p...)
@@ -343,6 +365,19 @@ func dlKind(t time.Time) string {
 	default:
 		return "future"
 	}
+}
+
+// ExpireRead lets virtual time jump past the read deadline currently set on the connection
+// (reads then fail with os.ErrDeadlineExceeded); it reports false, and does nothing, when no
+// read deadline is set.
+func (c *Conn) ExpireRead() bool {
+	c.in.mu.Lock()
+	set := !c.in.rdl.IsZero()
+	c.in.mu.Unlock()
+	if set {
+		c.in.setReadDeadline(time.Unix(1, 0))
+	}
+	return set
 }
 
 func (c *Conn) SetDeadline(t time.Time) error {
